@@ -584,6 +584,87 @@ pub fn run(tier: &str) -> i32 {
         }
     }
     ev.set("large_bodies", json!({"requests": large.0, "largest_body_bytes": large.1, "entries_checked": large.2}));
+    // every way a request can subscribe its session (round 10): a plain watch, the arbiter registration (a subscription
+    // to the conflicts of the database), either of them wrapped as a replicated request, spelled with extra blanks,
+    // alone or after the session's plain watch was already given back - when the request has ended NO sender is left in
+    // any watcher list of the (otherwise unused) database, whatever the command was called that put it there, and the
+    // connection count is back. Judged on the node's own watcher table, for plain and arbiter-strategy databases.
+    let mut subscribe_forms = (0u64, 0u64, BTreeSet::<String>::new());
+    {
+        let mut adm = crate::common::session::Session::new();
+        adm.call(&live.dbs, "auth admin pwd");
+        adm.call(&live.dbs, "create-db hsubplain tok");
+        adm.call(&live.dbs, "create-db hsubarb tok arbiter");
+        adm.disconnect(&live.dbs);
+        let forms: Vec<(&str, Vec<&str>)> = vec![
+            ("watch", vec!["watch s1"]),
+            ("arbiter", vec!["arbiter"]),
+            ("rp-watch", vec!["rp 1 watch s2"]),
+            ("rp-arbiter", vec!["rp 2 arbiter"]),
+            ("watch-unwatch-then-arbiter", vec!["watch s1", "unwatch s1", "arbiter"]),
+            ("watch-unwatch-all-then-rp-watch", vec!["watch s1", "unwatch-all", "rp 3 watch s3"]),
+            ("arbiter-twice", vec!["arbiter", "arbiter"]),
+            ("watch-after-a-refused-command", vec!["get $$secret", "frobnicate", "watch s4"]),
+            ("arbiter-then-writes", vec!["arbiter", "set s5 a", "set-safe s5 0 b", "get s5"]),
+            ("watch-of-many-keys", vec!["watch a1", "watch a2", "watch a3", "watch a4", "watch a5", "watch a1"]),
+            ("watch-then-use-db-again", vec!["watch s6", "use-db {db} tok", "get s6"]),
+        ];
+        let senders_left = |db: &str| -> Option<(usize, Vec<String>)> {
+            let map = live.dbs.map.try_read().ok()?;
+            let d = map.get(db)?;
+            let w = d.watchers.map.try_read().ok()?;
+            let left: Vec<String> = w.iter().filter(|(_, s)| !s.is_empty()).map(|(k, s)| format!("{} x{}", k, s.len())).collect();
+            let c = d.connections.try_read().ok().map(|c| c.load(std::sync::atomic::Ordering::Relaxed))?;
+            Some((c, left))
+        };
+        'forms: for db in ["hsubplain", "hsubarb"] {
+            for (name, cmds) in &forms {
+                for sep in [";", "; ", ";;"] {
+                    let body = format!("use-db {} tok{}{}", db, sep, cmds.iter().map(|c| c.replace("{db}", db)).collect::<Vec<_>>().join(sep));
+                    let reply = http_post(&live.http, body.as_bytes(), Duration::from_secs(20));
+                    subscribe_forms.0 += 1;
+                    if reply.is_err() {
+                        v.report(json!({"check": "http", "problem": "request-not-answered"}), json!({"body": body, "error": format!("{:?}", reply)}));
+                        break 'forms;
+                    }
+                    let deadline = Instant::now() + Duration::from_secs(5);
+                    let verdict = loop {
+                        match senders_left(db) {
+                            Some((0, left)) if left.is_empty() => break None,
+                            other if Instant::now() > deadline => break Some(other),
+                            _ => std::thread::sleep(Duration::from_millis(3)),
+                        }
+                    };
+                    match verdict {
+                        None => {
+                            subscribe_forms.1 += 1;
+                            subscribe_forms.2.insert(format!("{}|{}", name, if db == "hsubarb" { "arbiter-db" } else { "plain-db" }));
+                        }
+                        Some(None) => {
+                            v.report(json!({"check": "http", "problem": "node-state-not-readable-a-lock-is-held"}), json!({"body": body}));
+                            break 'forms;
+                        }
+                        Some(Some((conn, left))) => {
+                            let problem = if !left.is_empty() { "subscription-not-released" } else { "connections-not-released" };
+                            v.report(json!({"check": "http", "problem": problem, "context": format!("subscribed-by:{}", name)}), json!({"body": body, "reply": reply, "database": db, "senders_left_in_watcher_lists": left, "connections": conn}));
+                            // what leaked stays: forget it so that the next form is judged on its own
+                            if let Ok(map) = live.dbs.map.try_read() {
+                                if let Some(d) = map.get(db) {
+                                    if let Ok(mut w) = d.watchers.map.try_write() {
+                                        w.clear();
+                                    }
+                                    if let Ok(c) = d.connections.try_read() {
+                                        c.store(0, std::sync::atomic::Ordering::Relaxed);
+                                    }
+                                }
+                            }
+                        }
+                    }
+                }
+            }
+        }
+    }
+    ev.set("ways_of_subscribing_in_a_request", json!({"requests": subscribe_forms.0, "seen_released": subscribe_forms.1, "forms": subscribe_forms.2.iter().cloned().collect::<Vec<_>>()}));
     // requests of different clients on ONE database, served concurrently by the HTTP workers, each with subscriptions of
     // its own and one on a key all of them watch, while a long-lived session of that database (300 subscriptions) adds
     // one more subscription: every entry is the command's own, when the burst is over the subscriptions of the requests
